@@ -290,6 +290,10 @@ Proof. reflexivity. Qed.
 (* the two repaired hangs are no longer blocking *)
 Example ex_copydone_outside_copy : classify (handle_bytes (o_plain true) (Idle c0) [99;0;0;0;4]%N []) = (KCont, 3%N). Proof. reflexivity. Qed.
 Example ex_copydata_sync_in_copy : classify (handle_bytes (o_plain true) (InCopy false false c0) [100;0;0;0;5;120;83;0;0;0;4]%N []) = (KCont, 5%N). Proof. reflexivity. Qed.
+(* a Query while the server is in COPY mode ends the sender's session and discards its server (016496c, F37) *)
+Example ex_query_in_copy : classify (handle_bytes (o_plain true) (InCopy false false c0) [81;0;0;0;6;120;0]%N [ZI]) = (KErr, 9%N) /\
+  r_effs (handle_bytes (o_plain true) (InCopy false false c0) [81;0;0;0;6;120;0]%N [ZI]) = [FxReply RErrOnly; FxDropHeld].
+Proof. vm_compute. split; reflexivity. Qed.
 (* the known one *)
 Example ex_ext_copy_copydone : classify (handle_bytes (o_plain true) (InCopy false true c0) [99;0;0;0;4]%N [ZI]) = (KBlocked, 5%N). Proof. reflexivity. Qed.
 (* caching on: Close of a named statement forgets the name when it ARRIVES (80b6794), so a Bind of that name
